@@ -206,14 +206,20 @@ class Renderer:
             txt = head + (" :: " if dc else " ") + ", ".join(t for t, _ in g)
             doc = next((e.get("doc") for _, e in g if e.get("doc")), None) if doc_ok else None
             main.append(Line(txt, doc, self.docsty(doc)))
-        # attribute statements
-        for txt, pl, _ in stmt_attrs:
+        # attribute statements; an ALLOCATABLE / POINTER / TARGET statement may give the array bounds as well
+        carrier = None
+        if dim_stmt and self.feat.get("dim_on_attr_stmt", True):
+            cands = [i for i, (txt, _, _) in enumerate(stmt_attrs) if txt.lower() in ("allocatable", "pointer", "target")]
+            if cands and self.flag("dim-on-attr-stmt", 1, 2):
+                carrier = cands[0]
+        blank = " " if dim_stmt and self.flag("dim-blank", 1, 4) else ""       # `dimension a (10)`
+        for i, (txt, pl, _) in enumerate(stmt_attrs):
             dcs = " :: " if self.flag("attrstmt-dcolon") else " "
-            ln = Line(txt + dcs + ", ".join(self.idn(n) for n in names))
+            ln = Line(txt + dcs + ", ".join(self.idn(n) + (blank + dimattr if i == carrier else "") for n in names))
             (before if pl == "before" else after).append(ln)
-        if dim_stmt:
+        if dim_stmt and carrier is None:
             dcs = " :: " if self.flag("attrstmt-dcolon") else " "
-            ln = Line(self.kw("dimension") + dcs + ", ".join(self.idn(n) + dimattr for n in names))
+            ln = Line(self.kw("dimension") + dcs + ", ".join(self.idn(n) + blank + dimattr for n in names))
             (before if dim_stmt == "before" else after).append(ln)
         if param_stmt:
             items = ", ".join(f"{self.idn(e['name'])} = {e['init']}" for e in d["ents"])
